@@ -126,7 +126,10 @@ let predict (c : string) (obs : string) : string * string * bool =
       let gun = next () in
       let _ka = next () in
       let _inst = num () in
-      let refused = bool_of_field (next ()) in
+      let mode = next () in
+      let refused = (mode = "1") in
+      let h2gun = (gun = "http2") in
+      let target_h2 = h2gun && mode <> "2" in
       let iters = num () in
       let n = num () in
       let pp_codes = ref [] in
@@ -142,7 +145,7 @@ let predict (c : string) (obs : string) : string * string * bool =
         (* the body bytes matter to the model only for assert/response *)
         let body = if pp.[0] = 'a' then expand_body body_f else [] in
         pp_codes := !pp_codes @ [pp];
-        let resp = { rs_conn = (if refused then ConnRefused else conn); rs_status = status; rs_body_ok = bodyok; rs_h2 = false } in
+        let resp = { rs_conn = (if refused then ConnRefused else conn); rs_status = status; rs_body_ok = bodyok; rs_h2 = target_h2 } in
         let pps = (match String.split_on_char ':' pp with
           | ["-"] -> []
           | ["h"; ch] -> [ (match var_header_one (chain_of_text (string_of_bytes (bytes_of_hex ch))) tok with Done _ -> Done () | Failed -> Failed | Panicked -> Panicked) ]
@@ -153,8 +156,8 @@ let predict (c : string) (obs : string) : string * string * bool =
           | _ -> failwith "pp") in
         { si_pre_ok = true; si_tmpl_ok = (tmpl <> "e"); si_prep_ok = (tmpl <> "u0"); si_resp = resp; si_pps = pps }) in
       let shots =
-        if gun = "http" then
-          List.map (fun s -> base_shoot { bc_bound = true; bc_connect = None; bc_http2 = false } false s.si_resp) steps
+        if gun = "http" || h2gun then
+          List.map (fun s -> base_shoot { bc_bound = true; bc_connect = None; bc_http2 = h2gun } false s.si_resp) steps
         else List.init iters (fun _ -> scenario_shoot true steps) in
       let (samples, failed) = instance_run shots in
       let show_s (s : sample) = Printf.sprintf "%d:%s" (int_of_z s.sm_code) (field_of_bool s.sm_err) in
@@ -166,7 +169,9 @@ let predict (c : string) (obs : string) : string * string * bool =
       let v =
         (match split_blank obs with
          | run :: cnt :: rest ->
-             if run = "run=panic" then begin
+             (* the documented fatal condition: http2 gun and a target that does not negotiate HTTP/2 (and is reachable) *)
+             if failed && h2gun && not target_h2 then (if run = "run=panic" then "ok" else "BAD:documented-fatal-condition-not-fatal")
+             else if run = "run=panic" then begin
                (* name the postprocessor of the first step that the model sees panicking *)
                let culprit = List.fold_left (fun acc (pp, st) ->
                  if acc <> "" then acc
